@@ -196,12 +196,22 @@ pub fn check_transfer_seq(c: &TransferSeq, st: &mut Stats) -> Result<(), String>
     let sign = Sign::new(rec.clone(), Address(first.addr), sign_type);
     for (k, op) in c.ops.iter().enumerate() {
         // every operation uses the first one's address and sign type (it is the same Sign object)
-        let op = TransferCase { addr: first.addr, sign_type: first.sign_type, bad_ack: None, bus_error_at: None, ..op.clone() };
+        // (an operation may be cut short by a bus failure at one of its calls; the operations after it are judged like any
+        // other: what an aborted transfer left behind in the Sign object must not show in the next one)
+        let op = TransferCase { addr: first.addr, sign_type: first.sign_type, bad_ack: None, ..op.clone() };
         let items = items_of(&op);
         if items.iter().map(|i| (i.len() + 15) / 16).sum::<usize>() > 65535 {
             return Ok(());
         }
         let start = rec.borrow().log.len();
+        {
+            let mut rb = rec.borrow_mut();
+            rb.bus_error_at = op.bus_error_at.map(|(at, kind)| (start + at, kind));
+            rb.errored = false;
+        }
+        if op.bus_error_at.is_some() && k + 1 < c.ops.len() {
+            st.class("sequence:operation-after-an-aborted-one");
+        }
         // the recorder's verdict list is consumed attempt by attempt: make this operation's verdicts line up
         let used = rec.borrow().attempt;
         let r = run_op(&sign, &op, &items)?;
@@ -473,6 +483,33 @@ pub fn run(ctx: &Ctx) {
         check_transfer(&c, st).map_err(|m| (serde_json::to_value(&c).unwrap(), m))
     });
     ctx.part_done("offset-limit", true, json!("pages of 4096 chunks (last offset 65520), alone and next to small pages"));
+
+    // long page lists: 255, 256, 257 ... pages in one call (more pages than one-byte page ids; every page must still go out)
+    let long_lists: Vec<(usize, u16)> = vec![(255, 1), (256, 1), (257, 1), (300, 3), (513, 2), (1000, 1), (256, 6), (2000, 2)];
+    par_range(ctx, "long-page-lists", long_lists.len() as u64 * 2, |k, st| {
+        let (n, chunks) = long_lists[(k / 2) as usize];
+        let c = TransferCase { addr: 0x0011, sign_type: (k % 11) as u8, pages: Some(vec![chunks; n]), seed: 77 + k, verdicts: if k % 2 == 0 { vec![true] } else { vec![false, true] }, bad_ack: None, if_needed_hello: None, dup_pages: false, bus_error_at: None };
+        check_transfer(&c, st).map_err(|m| (serde_json::to_value(&c).unwrap(), m))?;
+        st.nontrivial_enumerated(1);
+        Ok(())
+    });
+    // an aborted transfer followed by another operation on the same Sign object: a bus failure at every call index of a
+    // two-page transfer, then configure / the same pages again / other pages
+    par_range(ctx, "aborted-then-next-on-one-sign", 30 * 3, |i, st| {
+        let at = (i / 3) as usize;
+        let first = TransferCase { addr: 0x0021, sign_type: 2, pages: Some(vec![3, 2]), seed: 5, verdicts: vec![true], bad_ack: None, if_needed_hello: None, dup_pages: false, bus_error_at: Some((at, (i % 4) as u8)) };
+        let second = match i % 3 {
+            0 => TransferCase { pages: None, bus_error_at: None, ..first.clone() },
+            1 => TransferCase { bus_error_at: None, ..first.clone() },
+            _ => TransferCase { pages: Some(vec![1, 6]), seed: 6, verdicts: vec![false, true], bus_error_at: None, ..first.clone() },
+        };
+        let c = TransferSeq { ops: vec![first, second.clone(), second] };
+        check_transfer_seq(&c, st).map_err(|m| (serde_json::to_value(&c).unwrap(), m))?;
+        st.nontrivial_enumerated(1);
+        Ok(())
+    });
+    ctx.part_done("aborted-then-next-on-one-sign", true, json!("a bus failure at each of the first 30 calls of a two-page transfer, followed by configure / the same pages / other pages on the same Sign object"));
+    ctx.part_done("long-page-lists", true, json!("lists of 255, 256, 257, 300, 513, 1000, 2000 pages in one send_pages call, with and without a retry"));
 
     run_generated(ctx, "generated", ctx.tier.pick(100_000, 2_000_000), || case_strategy(6, false), |c, st| check_transfer(c, st));
     run_generated(
